@@ -57,6 +57,12 @@ type Recorder struct {
 	// Fault, when set, is consulted before every recorded call; a non-nil
 	// return is handed to the caller instead of executing the call.
 	Fault func(ev *Event) error
+	// RowFault, when set, is consulted before every row a result set hands out
+	// (row = number of rows already delivered by this result set); a non-nil
+	// return ends the iteration with that error (rows.Err()), as a connection
+	// dropped or a context cancelled in the middle of a result set does. The
+	// event is the recorded query the result set belongs to.
+	RowFault func(ev *Event, row int) error
 	// Off suspends recording and faults (used by the harness' own dump queries).
 	Off int32
 
@@ -230,7 +236,7 @@ func (c *conn) QueryContext(ctx context.Context, query string, args []driver.Nam
 		c.rec.setErr(ev.Seq, err)
 		return nil, err
 	}
-	return rows, nil
+	return c.rec.wrapRows(ev, rows), nil
 }
 
 func (c *conn) ResetSession(ctx context.Context) error { return nil }
@@ -317,5 +323,44 @@ func (s *stmt) QueryContext(ctx context.Context, args []driver.NamedValue) (driv
 		s.c.rec.setErr(ev.Seq, err)
 		return nil, err
 	}
-	return rows, nil
+	return s.c.rec.wrapRows(ev, rows), nil
+}
+
+// faultRows hands out the rows of the real result set until RowFault says stop.
+// Embedding keeps every optional driver interface of SQLiteRows (column types).
+type faultRows struct {
+	*sqlite3.SQLiteRows
+	rec  *Recorder
+	ev   Event
+	n    int
+	dead error
+}
+
+func (r *Recorder) wrapRows(ev *Event, rows driver.Rows) driver.Rows {
+	if r.RowFault == nil || atomic.LoadInt32(&r.Off) > 0 {
+		return rows
+	}
+	sr, ok := rows.(*sqlite3.SQLiteRows)
+	if !ok {
+		return rows
+	}
+	return &faultRows{SQLiteRows: sr, rec: r, ev: *ev}
+}
+
+func (fr *faultRows) Next(dest []driver.Value) error {
+	if fr.dead != nil {
+		return fr.dead
+	}
+	if f := fr.rec.RowFault; f != nil && atomic.LoadInt32(&fr.rec.Off) == 0 {
+		if err := f(&fr.ev, fr.n); err != nil {
+			fr.dead = err
+			fr.rec.setErr(fr.ev.Seq, err)
+			return err
+		}
+	}
+	err := fr.SQLiteRows.Next(dest)
+	if err == nil {
+		fr.n++
+	}
+	return err
 }
